@@ -251,8 +251,6 @@ def _block_of(stmt, root):
 
 
 def run(ctx):
-    from ..rules import generic as _G11
-    _G11.rule_F11(ctx, ['partitura.io.exportmusicxml', 'partitura.io.importmusicxml'], 'C03')
     rule_F5a(ctx)
     rule_vocab(ctx)
     rule_escape(ctx)
